@@ -123,6 +123,7 @@ type RPCPlan struct {
 
 	Role          string // "", "interest", "bystander", "disturber", "fresh"
 	pausedHandler bool
+	pausedReader  bool // this RPC\'s consumer is parked behind a gate for part of the run
 	neverEnds     bool // the handler only returns when its context ends
 	late          bool // started after the tunnel ended
 
